@@ -157,14 +157,12 @@ def make_sim_gemini(real, world):
                 world.result.fault("gemini_raise")
                 raise SimFault("gemini_raise")
             out = self.real.evaluate(y_pred, affinity, return_grad)
-            world.on_evaluate(y_pred, affinity, return_grad, out)
             if f is not None and f["kind"] == "nan" and k >= f["at"]:
                 if k == f["at"]:
                     world.log.emit("FAULT", kind="gemini_nan", at=k)
                     world.result.fault("gemini_nan")
-                if return_grad:
-                    return np.float64("nan"), out[1]
-                return np.float64("nan")
+                out = (np.float64("nan"), out[1]) if return_grad else np.float64("nan")
+            world.on_evaluate(y_pred, affinity, return_grad, out)      # observers see what the library sees
             return out
 
     return SimGemini()
@@ -384,6 +382,7 @@ class ModelHarness:
     def wrap_gemini(self):
         model = self.model
         orig = model.get_gemini
+        self.orig_get_gemini = orig
         world = self.world
         harness = self
 
